@@ -88,8 +88,20 @@ def shard(ctx):
             which = "data-vs-param" if 0 in (a, b) else "param-vs-param"
         extra_data = rng.random() < 0.3
         fl = {"r.guard": rtext, "m.json": json.dumps(M), "d.json": json.dumps(Dm)}
+        # where the parameter files live: flat distinct names, the same base name in different directories, or one directory given to -i
+        layout = rng.choice(["flat", "flat", "same-basename", "directory"])
+        ctx.res.counts["param-layout:" + layout] += 1
+        ipaths = []
         for i, p in enumerate(Pm):
-            fl["p%d.json" % i] = json.dumps(p) if rng.random() < 0.5 else "".join("%s: %s\n" % (k, json.dumps(v)) for k, v in p.items())
+            as_json = rng.random() < 0.5
+            rel = {"flat": "p%d.json" % i, "same-basename": "env%d/params.%s" % (i, "json" if as_json else "yaml"), "directory": "pdir/e%d/params.json" % i}[layout]
+            ipaths.append(rel)
+            fl[rel] = json.dumps(p) if as_json else "".join("%s: %s\n" % (k, json.dumps(v)) for k, v in p.items())
+
+        def iargs_for(order):
+            if layout == "directory":
+                return ["-i", "{S}/pdir"]
+            return [x for i in order for x in ("-i", "{S}/" + ipaths[i])]
         if extra_data:
             D2 = dict(Dm)
             kk = rng.choice(list(D2))
@@ -108,10 +120,10 @@ def shard(ctx):
                 ctx.inconclusive("reference-error-or-crash")
                 continue
             for order in orders:
-                iargs = [x for i in order for x in ("-i", "{S}/p%d.json" % i)]
+                iargs = iargs_for(order)
                 r = ctx.w.run({"k": "cli", "argv": ["validate", "-r", "{S}/r.guard", "-d", "{S}/d.json"] + (["-d", "{S}/d2.json"] if extra_data else []) + iargs + tail, "files": fl})
                 ctx.res.cases += 1
-                case = {"rules": rtext, "files": fl, "order": list(order), "structured": structured, "overlap": overlap, "extra_data": extra_data}
+                case = {"rules": rtext, "files": fl, "order": list(order), "structured": structured, "overlap": overlap, "extra_data": extra_data, "iargs": iargs}
                 ctx.res.counts["%s:%s" % (mode, "overlap" if overlap else "disjoint")] += 1
                 if overlap:
                     sig = core.crash_signature(r)
@@ -143,7 +155,7 @@ def shard(ctx):
                         ctx.sample({"merged": M, "data": Dm, "params": Pm, "order": list(order), "mode": mode, "statuses": st, "exit": r["code"]})
         # ---- payload + -i (plain and structured) : same merged verdicts
         if not overlap and not extra_data:
-            iargs = [x for i in range(len(Pm)) for x in ("-i", "{S}/p%d.json" % i)]
+            iargs = iargs_for(range(len(Pm)))
             ref = ctx.w.run({"k": "cli", "argv": ["validate", "--payload", "--structured", "-S", "none", "-o", "json"], "stdin": json.dumps({"rules": [rtext], "data": [json.dumps(M)]})})
             ref_st = statuses_of(ref, True)
             for structured in (False, True):
@@ -151,7 +163,7 @@ def shard(ctx):
                 r = ctx.w.run({"k": "cli", "argv": ["validate", "--payload"] + iargs + tail, "files": fl, "stdin": json.dumps({"rules": [rtext], "data": [json.dumps(Dm)]})})
                 ctx.res.cases += 1
                 mode = "payload-structured" if structured else "payload-plain"
-                case = {"rules": rtext, "files": fl, "order": list(range(len(Pm))), "structured": structured, "payload": True}
+                case = {"rules": rtext, "files": fl, "order": list(range(len(Pm))), "structured": structured, "payload": True, "iargs": iargs}
                 if r.get("r") != "ok" or ref_st is None:
                     ctx.inconclusive("payload-error-or-crash")
                     continue
@@ -166,7 +178,7 @@ def replay(case, w):
     fl = case["files"]
     structured = case["structured"]
     tail = ["--structured", "-S", "none", "-o", "json"] if structured else ["-S", "none", "-o", "json"]
-    iargs = [x for i in case["order"] for x in ("-i", "{S}/p%d.json" % i)]
+    iargs = case.get("iargs") or [x for i in case["order"] for x in ("-i", "{S}/p%d.json" % i)]
     if case.get("payload"):
         M = json.loads(fl["m.json"])
         ref = w.run({"k": "cli", "argv": ["validate", "--payload", "--structured", "-S", "none", "-o", "json"], "stdin": json.dumps({"rules": [case["rules"]], "data": [fl["m.json"]]})})
